@@ -807,8 +807,24 @@ def check_output_names(rep, prog):
     rep.ob('R-TPL', 'Demes.output Reorder names', bool(verdict), det[:160], dm.rel, body[0].lineno if body else out.lineno,
            what='names after a reorder: new[k] = old[neworder[k]-1], the permutation PhiManip.reorder_pops applies to the axes (not its inverse)')
     rp = prog.func('dadi.PhiManip', 'reorder_pops')
-    t = ast.unparse(rp)
-    rep.ob('R-TPL', 'PhiManip.reorder_pops axes', 'newaxes = [_ - 1 for _ in neworder]' in t and 'phi.transpose(newaxes)' in t, 'new axis k = old axis neworder[k]-1', 'dadi/PhiManip.py', rp.lineno,
+    # what PhiManip.reorder_pops does to the axes, for every permutation of 2-4 populations (abstract execution + index semantics)
+    import itertools
+    from sa import miniexec as mx
+    from sa import tis
+    okax, detax = True, 'new axis k = old axis neworder[k]-1'
+    try:
+        pmm = prog.mod('dadi.PhiManip')
+        for D_ in (2, 3, 4):
+            for order in itertools.permutations(range(1, D_ + 1)):
+                it_ = mx.Interp(prog, pmm)
+                rets = [p_ for p_ in it_.run(rp, {'phi': mx.Sym('phi', attrs={'ndim': D_}), 'neworder': list(order)}) if p_[0][0] == 'return']
+                idx_ = [mx.Sym('i%d' % k) for k in range(D_)]
+                root_, pidx_ = tis.at(rets[0][0][1], idx_, lambda v: isinstance(v, mx.Sym) and v.text == 'phi' and not v.struct)
+                if len(rets) != 1 or [mx.show(x) for x in pidx_] != ['i%d' % list(order).index(a + 1) for a in range(D_)]:
+                    okax, detax = False, 'neworder=%s returns %s' % (list(order), mx.show(rets[0][0][1])[:50] if rets else 'nothing')
+    except (mx.Undecidable, tis.Unfollowed, IndexError) as e:
+        okax, detax = False, 'reorder_pops is not recognised: %s' % e
+    rep.ob('R-TPL', 'PhiManip.reorder_pops axes', okax, detax, 'dadi/PhiManip.py', rp.lineno,
            what='writer side of the Reorder event')
     body = arms.get('isinstance(younger, Remove)')
     okr = body is not None and [ast.unparse(x) for x in body] == ['younger.deme_ids = list(older.deme_ids)', 'del younger.deme_ids[younger.removed - 1]', 'younger.deme_ids = tuple(younger.deme_ids)']
